@@ -8,13 +8,15 @@ set -u
 export GOFLAGS=-mod=mod GOPROXY=off GOSUMDB=off GOTOOLCHAIN=local
 IN="$1"; ID="$2"; PROP="$3"
 OUT=/verif/seeded/$ID
-[ -z "$(git -C /repo status --porcelain --untracked-files=no)" ] || { echo "$ID: /repo is dirty"; exit 2; }
-git -C /repo apply "$IN/patch.diff" || { echo "$ID: REJECT patch does not apply"; exit 1; }
-trap 'git -C /repo checkout -- .' EXIT
-( cd /repo && go build ./... && GOOS=freebsd go build ./... && GOOS=freebsd go vet . && GOOS=darwin go build ./... ) || { echo "$ID: REJECT does not build"; exit 1; }
+# R = the tree the change is applied to: /repo, or a scratch worktree of it given in VERIF_REPO (vcheck honours that too)
+R="${VERIF_REPO:-/repo}"
+[ -z "$(git -C "$R" status --porcelain --untracked-files=no)" ] || { echo "$ID: $R is dirty"; exit 2; }
+git -C "$R" apply "$IN/patch.diff" || { echo "$ID: REJECT patch does not apply"; exit 1; }
+trap 'git -C "$R" checkout -- .' EXIT
+( cd "$R" && go build ./... && GOOS=freebsd go build ./... && GOOS=freebsd go vet . && GOOS=darwin go build ./... ) || { echo "$ID: REJECT does not build"; exit 1; }
 # demonstration must at least compile for freebsd
 tmp=$(ls "$IN"/*_test.go 2>/dev/null | head -1)
-if [ -n "$tmp" ]; then cp "$tmp" /repo/zz_demo_test.go; ( cd /repo && GOOS=freebsd go vet . ) ; rc=$?; rm -f /repo/zz_demo_test.go; [ $rc = 0 ] || { echo "$ID: REJECT demonstration does not compile for freebsd"; exit 1; }; fi
+if [ -n "$tmp" ]; then cp "$tmp" "$R/zz_demo_test.go"; ( cd "$R" && GOOS=freebsd go vet . ) ; rc=$?; rm -f "$R/zz_demo_test.go"; [ $rc = 0 ] || { echo "$ID: REJECT demonstration does not compile for freebsd"; exit 1; }; fi
 /verif/vcheck "$PROP" --tier quick > /verif/.build/confirm-$ID.log 2>&1; rc=$?
 agree=$(python3 -c "import json; c=json.load(open('/verif/evidence/$PROP.json'))['coverage']; print(c.get('scripts_replayed_agreeing_with_recorded_bsd_expectation'), len(c.get('scripts_disagreeing',[])))")
 [ "$agree" = "41 0" ] || { echo "$ID: REJECT the recorded kqueue expectations notice the change ($agree)"; exit 1; }
